@@ -46,6 +46,33 @@ def fans_effective(chips):
     return [c for c in chips if c["nested"]]
 
 
+def effective_plat(case):
+    """platform coretemp chips without the sensors psutil skips because /sys/class/hwmon/<same hwmonK>/<same tempN>
+    is already listed (`altname not in basenames`; only direct class chips can shadow)"""
+    shadow = {}
+    for c in case["chips"]:
+        if not c["nested"]:
+            shadow.setdefault(c["dir"], set()).update(
+                s["n"] for s in c["sensors"] if visible(s, ("input", "max", "crit", "label")))
+    out = []
+    for c in case["plat"]:
+        c = dict(c)
+        c["sensors"] = [s for s in c["sensors"] if s["n"] not in shadow.get(c["dir"], ())]
+        out.append(c)
+    return out
+
+
+def spec_to_raw(x):
+    """file content of a spec-level attribute (Python twin of k_knum / k_text, used only for files the model never reads)"""
+    if x[0] == "P":
+        if x[1] == "N":
+            return ["C", ("-" if x[2] else "") + x[3] + "\n"]
+        if x[1] == "J":
+            return ["C", x[2]]
+        return ["C", x[1] + "\n"]
+    return ["A"] if x[0] == "A" else ["E"]
+
+
 def sorted_zones(zones):
     return sorted(zones, key=lambda z: "%s/thermal_zone%d" % (TZ, z["idx"]))
 
@@ -152,8 +179,55 @@ def gen_temps_coretemp(rng):
         if rng.random() < 0.6:
             ch["name"] = ["P", "coretemp"]
         plat.append(ch)
-    c.update(kind="temps_coretemp", cls="temps-coretemp", plat=plat)
+    cls = "temps-coretemp"
+    direct = [ch for ch in c["chips"] if not ch["nested"] and ch["sensors"]]
+    if direct and rng.random() < 0.35:
+        # the same hwmonK is also visible below /sys/class/hwmon: its common tempN are listed once (class copy)
+        src = rng.choice(direct)
+        ch = gen_temp_chip(rng, int(src["dir"][5:]), nested=False)
+        ch["platform"] = "coretemp.0"
+        ch["name"] = ["P", "coretemp"]
+        ch["sensors"] = [dict(s, n=t["n"]) for s, t in zip(ch["sensors"], src["sensors"])] + [
+            s for s in ch["sensors"][len(src["sensors"]):] if s["n"] not in {t["n"] for t in src["sensors"]}]
+        plat.append(ch)
+        cls = "temps-coretemp-shadowed"
+    c.update(kind="temps_coretemp", cls=cls, plat=plat)
     return c
+
+
+def both_nestings_cases():
+    """one chip with temp files directly below hwmonN, another only below hwmonK/device: the answer is the union"""
+    out = []
+    mk = lambda n, v, lab: {"n": n, "input": ["P", "N", False, v], "max": ["P", "N", False, "80000"], "crit": ["A"],
+                            "label": ["P", lab] if lab else ["A"], "other": False}
+    for (d1, d2) in (("hwmon0", "hwmon1"), ("hwmon1", "hwmon0"), ("hwmon2", "hwmon10")):
+        for same_name in (False, True):
+            for fahr in (False, True):
+                chips = [{"dir": d1, "nested": False, "name": ["P", "coretemp"], "sensors": [mk(1, "45000", "Core 0"), mk(2, "46000", "Core 1")]},
+                         {"dir": d2, "nested": True, "name": ["P", "coretemp" if same_name else "nct6775"],
+                          "sensors": [mk(1, "38000", "SYSTIN"), mk(3, "27500", "")]}]
+                out.append({"kind": "temps", "cls": "temps-both-nestings", "fahr": fahr, "chips": chips, "zones": []})
+    return out
+
+
+def rename_history_cases(rng, k):
+    """query; the same hwmonN directory now belongs to another chip (name file changed); query again, same process"""
+    out = []
+    for _ in range(k):
+        a = gen_temps(rng)
+        while not any(visible(s, ("input", "max", "crit", "label")) for c in a["chips"] for s in c["sensors"]):
+            a = gen_temps(rng)
+        b = {"kind": "temps", "cls": a["cls"], "fahr": a["fahr"], "zones": a["zones"],
+             "chips": [dict(c, name=["P", rng.choice([n for n in NAMES if ["P", n] != c["name"]])]) for c in a["chips"]]}
+        out.append({"kind": "history", "cls": "history-temps-rename", "steps": [a, b, a]})
+        f = gen_fans(rng)
+        while f["cls"] == "trivial":
+            f = gen_fans(rng)
+        g = {"kind": "fans", "cls": f["cls"],
+             "chips": [dict(c, name=["P", rng.choice([n for n in NAMES if ["P", n] != c["name"]])]) for c in f["chips"]]}
+        out.append({"kind": "history", "cls": "history-fans-rename", "steps": [f, g]})
+    return out
+
 
 
 def single_sensor_cases(values=("45000",), names=("P", "A")):
@@ -505,6 +579,8 @@ def gen_cpucount_raw(rng):
 def gen_cases(rng, tier):
     n = {"quick": 1, "thorough": 14, "search": 2}[tier]
     cases = []
+    cases += both_nestings_cases()
+    cases += rename_history_cases(rng, {"quick": 20, "thorough": 200, "search": 20}[tier])
     if tier == "quick":
         cases += single_sensor_cases()
         cases += single_fan_cases()
